@@ -128,4 +128,297 @@ mod verif_c08_position {
         let _ = cpr_location(&lat, &lon, form, coeff);
         kani::cover!(true, "reach_end");
     }
+
+    // One CPR pair with literal arguments (so that CBMC folds the float arithmetic; a table lookup
+    // keeps the values symbolic to it).  Vectors: tools/gen_cpr_samples.py (independent encoder).
+    fn chk(la0: u32, lo0: u32, la1: u32, lo1: u32, form: u32, same: u32, tlat: f64, tlon: f64, tol_lat: f64, tol_lon: f64) {
+        match cpr_location(&[la0, la1], &[lo0, lo1], form, 1) {
+            Some((la, lon)) => {
+                let mut dl = lon - tlon;
+                if dl > 180.0 {
+                    dl -= 360.0;
+                } else if dl < -180.0 {
+                    dl += 360.0;
+                }
+                let dla = la - tlat;
+                assert!(dla < tol_lat && dla > -tol_lat, "decoded latitude within ~13 m of the encoded position");
+                assert!(dl < tol_lon && dl > -tol_lon, "decoded longitude within ~13 m of the encoded position");
+            }
+            None => assert!(same == 0, "a pair from one latitude zone decodes to a position"),
+        }
+    }
+
+    //@ob id=C08.cpr_location.samples.00 props=C08 tier=quick kind=harness fns=adsb/position.rs:cpr_location bounded=6-concrete-pairs
+    //@region BOUNDED stand-in for the decode arithmetic (the all-input equivalence obligations C08.cpr_location.latitude/.longitude did not finish in 200 min): the real cpr_location on CPR pairs produced by an independent encoder for true positions in every NL zone, both hemispheres, both anchor parities, longitudes incl. the antimeridian and Greenwich: result within ~13 m of the true position (samples 0..6 of 126)
+    #[kani::proof]
+    #[kani::unwind(60)]
+    fn c08_cpr_location_samples_00() {
+        chk(114365, 3, 112459, 3, 1, 1, 5.2352356, 0.0001300, 1.200e-04, 1.205e-04);
+        chk(16707, 84193, 18613, 82766, 0, 1, -5.2352356, 3.9193700, 1.200e-04, 1.205e-04);
+        chk(14185, 131068, 9579, 131068, 0, 1, 12.6493228, -0.0002100, 1.200e-04, 1.230e-04);
+        chk(14185, 131068, 9579, 131068, 1, 1, 12.6493228, -0.0002100, 1.200e-04, 1.230e-04);
+        chk(32610, 65517, 38620, 131054, 0, 1, -16.5072190, 179.9991000, 1.200e-04, 1.252e-04);
+        chk(35124, 16, 27985, 65552, 1, 1, 19.6078292, -179.9992000, 1.200e-04, 1.274e-04);
+        kani::cover!(true, "reach_end");
+    }
+    //@ob id=C08.cpr_location.samples.01 props=C08 tier=quick kind=harness fns=adsb/position.rs:cpr_location bounded=6-concrete-pairs
+    //@region BOUNDED stand-in for the decode arithmetic (the all-input equivalence obligations C08.cpr_location.latitude/.longitude did not finish in 200 min): the real cpr_location on CPR pairs produced by an independent encoder for true positions in every NL zone, both hemispheres, both anchor parities, longitudes incl. the antimeridian and Greenwich: result within ~13 m of the true position (samples 6..12 of 126)
+    #[kani::proof]
+    #[kani::unwind(60)]
+    fn c08_cpr_location_samples_01() {
+        chk(95948, 10194, 103087, 108316, 0, 1, -19.6078292, 90.5000000, 1.200e-04, 1.274e-04);
+        chk(95948, 10194, 103087, 108316, 1, 1, -19.6078292, 90.5000000, 1.200e-04, 1.274e-04);
+        chk(93656, 18161, 85541, 63111, 1, 1, 22.2872199, -123.4567000, 1.200e-04, 1.297e-04);
+        chk(116061, 98306, 125049, 81922, 0, 1, -24.6871460, 45.0001000, 1.200e-04, 1.321e-04);
+        chk(63004, 49154, 53216, 65538, 0, 1, 26.8841171, -44.9999000, 1.200e-04, 1.345e-04);
+        chk(63004, 49154, 53216, 65538, 1, 1, 26.8841171, -44.9999000, 1.200e-04, 1.345e-04);
+        kani::cover!(true, "reach_end");
+    }
+    //@ob id=C08.cpr_location.samples.02 props=C08 tier=quick kind=harness fns=adsb/position.rs:cpr_location bounded=6-concrete-pairs
+    //@region BOUNDED stand-in for the decode arithmetic (the all-input equivalence obligations C08.cpr_location.latitude/.longitude did not finish in 200 min): the real cpr_location on CPR pairs produced by an independent encoder for true positions in every NL zone, both hemispheres, both anchor parities, longitudes incl. the antimeridian and Greenwich: result within ~13 m of the true position (samples 12..18 of 126)
+    #[kani::proof]
+    #[kani::unwind(60)]
+    fn c08_cpr_location_samples_02() {
+        chk(68068, 3, 77856, 2, 0, 1, -26.8841171, 0.0001300, 1.200e-04, 1.345e-04);
+        chk(41343, 75631, 31916, 74204, 1, 1, 25.8925393, 3.9193700, 1.200e-04, 1.334e-04);
+        chk(46406, 131068, 56555, 131068, 0, 1, -27.8756949, -0.0002100, 1.200e-04, 1.358e-04);
+        chk(46406, 131068, 56555, 131068, 1, 1, -27.8756949, -0.0002100, 1.200e-04, 1.358e-04);
+        chk(107592, 131055, 97061, 65519, 1, 1, 28.9251720, 179.9991000, 1.200e-04, 1.371e-04);
+        chk(112684, 65551, 123913, 15, 0, 1, -30.8417270, -179.9992000, 1.200e-04, 1.398e-04);
+        kani::cover!(true, "reach_end");
+    }
+    //@ob id=C08.cpr_location.samples.03 props=C08 tier=quick kind=harness fns=adsb/position.rs:cpr_location bounded=6-concrete-pairs
+    //@region BOUNDED stand-in for the decode arithmetic (the all-input equivalence obligations C08.cpr_location.latitude/.longitude did not finish in 200 min): the real cpr_location on CPR pairs produced by an independent encoder for true positions in every NL zone, both hemispheres, both anchor parities, longitudes incl. the antimeridian and Greenwich: result within ~13 m of the true position (samples 18..24 of 126)
+    #[kani::proof]
+    #[kani::unwind(60)]
+    fn c08_cpr_location_samples_03() {
+        chk(58022, 74638, 46132, 41688, 0, 1, 32.6560157, 90.5000000, 1.200e-04, 1.425e-04);
+        chk(58022, 74638, 46132, 41688, 1, 1, 32.6560157, 90.5000000, 1.200e-04, 1.425e-04);
+        chk(95780, 25713, 83261, 70662, 0, 1, 34.3844652, -123.4567000, 1.200e-04, 1.454e-04);
+        chk(35292, 16386, 47811, 2, 1, 1, -34.3844652, 45.0001000, 1.200e-04, 1.454e-04);
+        chk(130206, 2, 12256, 16386, 0, 1, -36.0396235, -44.9999000, 1.200e-04, 1.484e-04);
+        chk(130206, 2, 12256, 16386, 1, 1, -36.0396235, -44.9999000, 1.200e-04, 1.484e-04);
+        kani::cover!(true, "reach_end");
+    }
+    //@ob id=C08.cpr_location.samples.04 props=C08 tier=quick kind=harness fns=adsb/position.rs:cpr_location bounded=6-concrete-pairs
+    //@region BOUNDED stand-in for the decode arithmetic (the all-input equivalence obligations C08.cpr_location.latitude/.longitude did not finish in 200 min): the real cpr_location on CPR pairs produced by an independent encoder for true positions in every NL zone, both hemispheres, both anchor parities, longitudes incl. the antimeridian and Greenwich: result within ~13 m of the true position (samples 24..30 of 126)
+    #[kani::proof]
+    #[kani::unwind(60)]
+    fn c08_cpr_location_samples_04() {
+        chk(115292, 2, 102447, 2, 1, 1, 35.2776336, 0.0001300, 1.200e-04, 1.470e-04);
+        chk(17512, 68496, 4112, 67069, 0, 1, 36.8016134, 3.9193700, 1.200e-04, 1.499e-04);
+        chk(113560, 131068, 126960, 131068, 0, 1, -36.8016134, -0.0002100, 1.200e-04, 1.499e-04);
+        chk(113560, 131068, 126960, 131068, 1, 1, -36.8016134, -0.0002100, 1.200e-04, 1.499e-04);
+        chk(95435, 65521, 109136, 131057, 0, 1, -37.6313350, 179.9991000, 1.200e-04, 1.515e-04);
+        chk(69195, 13, 54934, 65549, 1, 1, 39.1674929, -179.9992000, 1.200e-04, 1.548e-04);
+        kani::cover!(true, "reach_end");
+    }
+    //@ob id=C08.cpr_location.samples.05 props=C08 tier=quick kind=harness fns=adsb/position.rs:cpr_location bounded=6-concrete-pairs
+    //@region BOUNDED stand-in for the decode arithmetic (the all-input equivalence obligations C08.cpr_location.latitude/.longitude did not finish in 200 min): the real cpr_location on CPR pairs produced by an independent encoder for true positions in every NL zone, both hemispheres, both anchor parities, longitudes incl. the antimeridian and Greenwich: result within ~13 m of the true position (samples 30..36 of 126)
+    #[kani::proof]
+    #[kani::unwind(60)]
+    fn c08_cpr_location_samples_05() {
+        chk(101680, 40960, 86878, 8010, 0, 1, 40.6545426, 90.5000000, 1.200e-04, 1.582e-04);
+        chk(101680, 40960, 86878, 8010, 1, 1, 40.6545426, 90.5000000, 1.200e-04, 1.582e-04);
+        chk(29392, 74437, 44194, 119387, 1, 1, -40.6545426, -123.4567000, 1.200e-04, 1.582e-04);
+        chk(128935, 65538, 13190, 49154, 0, 1, -42.0978292, 45.0001000, 1.200e-04, 1.617e-04);
+        chk(32808, 81922, 16970, 98306, 0, 1, 43.5018448, -44.9999000, 1.200e-04, 1.654e-04);
+        chk(32808, 81922, 16970, 98306, 1, 1, 43.5018448, -44.9999000, 1.200e-04, 1.654e-04);
+        kani::cover!(true, "reach_end");
+    }
+    //@ob id=C08.cpr_location.samples.06 props=C08 tier=quick kind=harness fns=adsb/position.rs:cpr_location bounded=6-concrete-pairs
+    //@region BOUNDED stand-in for the decode arithmetic (the all-input equivalence obligations C08.cpr_location.latitude/.longitude did not finish in 200 min): the real cpr_location on CPR pairs produced by an independent encoder for true positions in every NL zone, both hemispheres, both anchor parities, longitudes incl. the antimeridian and Greenwich: result within ~13 m of the true position (samples 36..42 of 126)
+    #[kani::proof]
+    #[kani::unwind(60)]
+    fn c08_cpr_location_samples_06() {
+        chk(112488, 2, 128090, 2, 0, 1, -42.8507024, 0.0001300, 1.200e-04, 1.637e-04);
+        chk(47033, 61361, 30957, 59934, 1, 1, 44.1529872, 3.9193700, 1.200e-04, 1.673e-04);
+        chk(68367, 131069, 84704, 131069, 0, 1, -44.8704084, -0.0002100, 1.200e-04, 1.693e-04);
+        chk(68367, 131069, 84704, 131069, 1, 1, -44.8704084, -0.0002100, 1.200e-04, 1.693e-04);
+        chk(91899, 65523, 75076, 131059, 1, 1, 46.2067999, 179.9991000, 1.200e-04, 1.734e-04);
+        chk(39173, 65548, 55996, 12, 0, 1, -46.2067999, -179.9992000, 1.200e-04, 1.734e-04);
+        kani::cover!(true, "reach_end");
+    }
+    //@ob id=C08.cpr_location.samples.07 props=C08 tier=quick kind=harness fns=adsb/position.rs:cpr_location bounded=6-concrete-pairs
+    //@region BOUNDED stand-in for the decode arithmetic (the all-input equivalence obligations C08.cpr_location.latitude/.longitude did not finish in 200 min): the real cpr_location on CPR pairs produced by an independent encoder for true positions in every NL zone, both hemispheres, both anchor parities, longitudes incl. the antimeridian and Greenwich: result within ~13 m of the true position (samples 42..48 of 126)
+    #[kani::proof]
+    #[kani::unwind(60)]
+    fn c08_cpr_location_samples_07() {
+        chk(120452, 7282, 103153, 105404, 0, 1, 47.5138619, 90.5000000, 1.200e-04, 1.777e-04);
+        chk(120452, 7282, 103153, 105404, 1, 1, 47.5138619, 90.5000000, 1.200e-04, 1.777e-04);
+        chk(113725, 81989, 418, 126938, 0, 1, -48.7940778, -123.4567000, 1.200e-04, 1.822e-04);
+        chk(44775, 98305, 26552, 81921, 1, 1, 50.0496330, 45.0001000, 1.200e-04, 1.869e-04);
+        chk(86297, 32769, 104520, 49153, 0, 1, -50.0496330, -44.9999000, 1.200e-04, 1.869e-04);
+        chk(86297, 32769, 104520, 49153, 1, 1, -50.0496330, -44.9999000, 1.200e-04, 1.869e-04);
+        kani::cover!(true, "reach_end");
+    }
+    //@ob id=C08.cpr_location.samples.08 props=C08 tier=quick kind=harness fns=adsb/position.rs:cpr_location bounded=6-concrete-pairs
+    //@region BOUNDED stand-in for the decode arithmetic (the all-input equivalence obligations C08.cpr_location.latitude/.longitude did not finish in 200 min): the real cpr_location on CPR pairs produced by an independent encoder for true positions in every NL zone, both hemispheres, both anchor parities, longitudes incl. the antimeridian and Greenwich: result within ~13 m of the true position (samples 48..54 of 126)
+    #[kani::proof]
+    #[kani::unwind(60)]
+    fn c08_cpr_location_samples_08() {
+        chk(32005, 2, 13995, 2, 1, 1, 49.4650765, 0.0001300, 1.200e-04, 1.846e-04);
+        chk(73527, 54226, 91963, 52799, 0, 1, -50.6341895, 3.9193700, 1.200e-04, 1.892e-04);
+        chk(71707, 131069, 53035, 131069, 0, 1, 51.2824632, -0.0002100, 1.200e-04, 1.919e-04);
+        chk(71707, 131069, 53035, 131069, 1, 1, 51.2824632, -0.0002100, 1.200e-04, 1.919e-04);
+        chk(59365, 65524, 78037, 131060, 0, 1, -51.2824632, 179.9991000, 1.200e-04, 1.919e-04);
+        chk(98179, 10, 79067, 65546, 1, 1, 52.4942931, -179.9992000, 1.200e-04, 1.971e-04);
+        kani::cover!(true, "reach_end");
+    }
+    //@ob id=C08.cpr_location.samples.09 props=C08 tier=quick kind=harness fns=adsb/position.rs:cpr_location bounded=6-concrete-pairs
+    //@region BOUNDED stand-in for the decode arithmetic (the all-input equivalence obligations C08.cpr_location.latitude/.longitude did not finish in 200 min): the real cpr_location on CPR pairs produced by an independent encoder for true positions in every NL zone, both hemispheres, both anchor parities, longitudes incl. the antimeridian and Greenwich: result within ~13 m of the true position (samples 54..60 of 126)
+    #[kani::proof]
+    #[kani::unwind(60)]
+    fn c08_cpr_location_samples_09() {
+        chk(6845, 104676, 26392, 71726, 0, 1, -53.6866681, 90.5000000, 1.200e-04, 2.026e-04);
+        chk(6845, 104676, 26392, 71726, 1, 1, -53.6866681, 90.5000000, 1.200e-04, 2.026e-04);
+        chk(18808, 44591, 129906, 89540, 1, 1, 54.8609796, -123.4567000, 1.200e-04, 2.085e-04);
+        chk(86978, 16385, 107373, 1, 0, 1, -56.0184860, 45.0001000, 1.200e-04, 2.147e-04);
+        chk(32293, 114689, 12094, 1, 0, 1, 55.4782665, -44.9999000, 1.200e-04, 2.117e-04);
+        chk(32293, 114689, 12094, 1, 1, 1, 55.4782665, -44.9999000, 1.200e-04, 2.117e-04);
+        kani::cover!(true, "reach_end");
+    }
+    //@ob id=C08.cpr_location.samples.10 props=C08 tier=quick kind=harness fns=adsb/position.rs:cpr_location bounded=6-concrete-pairs
+    //@region BOUNDED stand-in for the decode arithmetic (the all-input equivalence obligations C08.cpr_location.latitude/.longitude did not finish in 200 min): the real cpr_location on CPR pairs produced by an independent encoder for true positions in every NL zone, both hemispheres, both anchor parities, longitudes incl. the antimeridian and Greenwich: result within ~13 m of the true position (samples 60..66 of 126)
+    #[kani::proof]
+    #[kani::unwind(60)]
+    fn c08_cpr_location_samples_10() {
+        chk(55896, 2, 35303, 2, 0, 1, 56.5587055, 0.0001300, 1.200e-04, 2.178e-04);
+        chk(75176, 47091, 95769, 45664, 1, 1, -56.5587055, 3.9193700, 1.200e-04, 2.178e-04);
+        chk(62034, 131070, 82845, 131070, 0, 1, -57.1603306, -0.0002100, 1.200e-04, 2.213e-04);
+        chk(62034, 131070, 82845, 131070, 1, 1, -57.1603306, -0.0002100, 1.200e-04, 2.213e-04);
+        chk(93663, 65526, 72441, 131062, 1, 1, 58.2875557, 179.9991000, 1.200e-04, 2.283e-04);
+        chk(117989, 9, 96362, 65544, 0, 1, 59.4011153, -179.9992000, 1.200e-04, 2.357e-04);
+        kani::cover!(true, "reach_end");
+    }
+    //@ob id=C08.cpr_location.samples.11 props=C08 tier=quick kind=harness fns=adsb/position.rs:cpr_location bounded=6-concrete-pairs
+    //@region BOUNDED stand-in for the decode arithmetic (the all-input equivalence obligations C08.cpr_location.latitude/.longitude did not finish in 200 min): the real cpr_location on CPR pairs produced by an independent encoder for true positions in every NL zone, both hemispheres, both anchor parities, longitudes incl. the antimeridian and Greenwich: result within ~13 m of the true position (samples 66..72 of 126)
+    #[kani::proof]
+    #[kani::unwind(60)]
+    fn c08_cpr_location_samples_11() {
+        chk(13083, 70997, 34710, 38047, 0, 1, -59.4011153, 90.5000000, 1.200e-04, 2.357e-04);
+        chk(13083, 70997, 34710, 38047, 1, 1, -59.4011153, 90.5000000, 1.200e-04, 2.357e-04);
+        chk(120108, 7193, 11064, 52142, 0, 1, -60.5018853, -123.4567000, 1.200e-04, 2.437e-04);
+        chk(34749, 65537, 12324, 49153, 1, 1, 61.5906722, 45.0001000, 1.200e-04, 2.522e-04);
+        chk(23629, 65537, 1390, 81921, 0, 1, 61.0816674, -44.9999000, 1.200e-04, 2.482e-04);
+        chk(23629, 65537, 1390, 81921, 1, 1, 61.0816674, -44.9999000, 1.200e-04, 2.482e-04);
+        kani::cover!(true, "reach_end");
+    }
+    //@ob id=C08.cpr_location.samples.12 props=C08 tier=quick kind=harness fns=adsb/position.rs:cpr_location bounded=6-concrete-pairs
+    //@region BOUNDED stand-in for the decode arithmetic (the all-input equivalence obligations C08.cpr_location.latitude/.longitude did not finish in 200 min): the real cpr_location on CPR pairs produced by an independent encoder for true positions in every NL zone, both hemispheres, both anchor parities, longitudes incl. the antimeridian and Greenwich: result within ~13 m of the true position (samples 72..78 of 126)
+    #[kani::proof]
+    #[kani::unwind(60)]
+    fn c08_cpr_location_samples_12() {
+        chk(107443, 1, 129682, 1, 1, 1, -61.0816674, 0.0001300, 1.200e-04, 2.482e-04);
+        chk(85204, 39956, 107814, 38529, 0, 1, -62.0996769, 3.9193700, 1.200e-04, 2.564e-04);
+        chk(58288, 131070, 35471, 131070, 0, 1, 62.6682207, -0.0002100, 1.200e-04, 2.614e-04);
+        chk(58288, 131070, 35471, 131070, 1, 1, 62.6682207, -0.0002100, 1.200e-04, 2.614e-04);
+        chk(49475, 131063, 72680, 65528, 0, 1, -63.7352200, 179.9991000, 1.200e-04, 2.712e-04);
+        chk(104690, 65543, 81099, 7, 1, 1, 64.7923092, -179.9992000, 1.200e-04, 2.818e-04);
+        kani::cover!(true, "reach_end");
+    }
+    //@ob id=C08.cpr_location.samples.13 props=C08 tier=quick kind=harness fns=adsb/position.rs:cpr_location bounded=6-concrete-pairs
+    //@region BOUNDED stand-in for the decode arithmetic (the all-input equivalence obligations C08.cpr_location.latitude/.longitude did not finish in 200 min): the real cpr_location on CPR pairs produced by an independent encoder for true positions in every NL zone, both hemispheres, both anchor parities, longitudes incl. the antimeridian and Greenwich: result within ~13 m of the true position (samples 78..84 of 126)
+    #[kani::proof]
+    #[kani::unwind(60)]
+    fn c08_cpr_location_samples_13() {
+        chk(3493, 4369, 27465, 102491, 0, 1, -65.8400816, 90.5000000, 1.200e-04, 2.932e-04);
+        chk(3493, 4369, 27465, 102491, 1, 1, -65.8400816, 90.5000000, 1.200e-04, 2.932e-04);
+        chk(19204, 14744, 125926, 59693, 1, 1, 66.8790889, -123.4567000, 1.200e-04, 3.056e-04);
+        chk(111868, 114689, 5146, 98305, 0, 1, -66.8790889, 45.0001000, 1.200e-04, 3.056e-04);
+        chk(8580, 16385, 115479, 32769, 0, 1, 66.3927528, -44.9999000, 1.200e-04, 2.997e-04);
+        chk(8580, 16385, 115479, 32769, 1, 1, 66.3927528, -44.9999000, 1.200e-04, 2.997e-04);
+        kani::cover!(true, "reach_end");
+    }
+    //@ob id=C08.cpr_location.samples.14 props=C08 tier=quick kind=harness fns=adsb/position.rs:cpr_location bounded=6-concrete-pairs
+    //@region BOUNDED stand-in for the decode arithmetic (the all-input equivalence obligations C08.cpr_location.latitude/.longitude did not finish in 200 min): the real cpr_location on CPR pairs produced by an independent encoder for true positions in every NL zone, both hemispheres, both anchor parities, longitudes incl. the antimeridian and Greenwich: result within ~13 m of the true position (samples 84..90 of 126)
+    #[kani::proof]
+    #[kani::unwind(60)]
+    fn c08_cpr_location_samples_14() {
+        chk(101244, 1, 125771, 1, 0, 1, -67.3654250, 0.0001300, 1.200e-04, 3.118e-04);
+        chk(41721, 31394, 16996, 29967, 1, 1, 67.9098440, 3.9193700, 1.200e-04, 3.191e-04);
+        chk(89351, 131070, 114076, 131070, 0, 1, -67.9098440, -0.0002100, 1.200e-04, 3.191e-04);
+        chk(89351, 131070, 114076, 131070, 1, 1, -67.9098440, -0.0002100, 1.200e-04, 3.191e-04);
+        chk(64069, 65529, 38971, 131065, 1, 1, 68.9328233, 179.9991000, 1.200e-04, 3.338e-04);
+        chk(44816, 6, 70284, 65542, 0, 1, -69.9484685, -179.9992000, 1.200e-04, 3.500e-04);
+        kani::cover!(true, "reach_end");
+    }
+    //@ob id=C08.cpr_location.samples.15 props=C08 tier=quick kind=harness fns=adsb/position.rs:cpr_location bounded=6-concrete-pairs
+    //@region BOUNDED stand-in for the decode arithmetic (the all-input equivalence obligations C08.cpr_location.latitude/.longitude did not finish in 200 min): the real cpr_location on CPR pairs produced by an independent encoder for true positions in every NL zone, both hemispheres, both anchor parities, longitudes incl. the antimeridian and Greenwich: result within ~13 m of the true position (samples 90..96 of 126)
+    #[kani::proof]
+    #[kani::unwind(60)]
+    fn c08_cpr_location_samples_15() {
+        chk(108291, 101763, 82457, 68813, 0, 1, 70.9571877, 90.5000000, 1.200e-04, 3.678e-04);
+        chk(108291, 101763, 82457, 68813, 1, 1, 70.9571877, 90.5000000, 1.200e-04, 3.678e-04);
+        chk(22781, 63469, 48615, 108418, 0, 1, -70.9571877, -123.4567000, 1.200e-04, 3.678e-04);
+        chk(130184, 32769, 103984, 16385, 1, 1, 71.9593551, 45.0001000, 1.200e-04, 3.875e-04);
+        chk(11145, 98305, 37173, 114689, 0, 1, -71.4898342, -44.9999000, 1.200e-04, 3.780e-04);
+        chk(11145, 98305, 37173, 114689, 1, 1, -71.4898342, -44.9999000, 1.200e-04, 3.780e-04);
+        kani::cover!(true, "reach_end");
+    }
+    //@ob id=C08.cpr_location.samples.16 props=C08 tier=quick kind=harness fns=adsb/position.rs:cpr_location bounded=6-concrete-pairs
+    //@region BOUNDED stand-in for the decode arithmetic (the all-input equivalence obligations C08.cpr_location.latitude/.longitude did not finish in 200 min): the real cpr_location on CPR pairs produced by an independent encoder for true positions in every NL zone, both hemispheres, both anchor parities, longitudes incl. the antimeridian and Greenwich: result within ~13 m of the true position (samples 96..102 of 126)
+    #[kani::proof]
+    #[kani::unwind(60)]
+    fn c08_cpr_location_samples_16() {
+        chk(9369, 1, 114070, 1, 1, 1, 72.4288760, 0.0001300, 1.200e-04, 3.975e-04);
+        chk(110203, 24259, 5693, 22832, 0, 1, -72.9553099, 3.9193700, 1.200e-04, 4.094e-04);
+        chk(42497, 131071, 15574, 131071, 0, 1, 73.9453543, -0.0002100, 1.200e-04, 4.339e-04);
+        chk(42497, 131071, 15574, 131071, 1, 1, 73.9453543, -0.0002100, 1.200e-04, 4.339e-04);
+        chk(64001, 65531, 36720, 131067, 0, 1, 74.9297484, 179.9991000, 1.200e-04, 4.615e-04);
+        chk(67071, 65540, 94352, 4, 1, 1, -74.9297484, -179.9992000, 1.200e-04, 4.615e-04);
+        kani::cover!(true, "reach_end");
+    }
+    //@ob id=C08.cpr_location.samples.17 props=C08 tier=quick kind=harness fns=adsb/position.rs:cpr_location bounded=6-concrete-pairs
+    //@region BOUNDED stand-in for the decode arithmetic (the all-input equivalence obligations C08.cpr_location.latitude/.longitude did not finish in 200 min): the real cpr_location on CPR pairs produced by an independent encoder for true positions in every NL zone, both hemispheres, both anchor parities, longitudes incl. the antimeridian and Greenwich: result within ~13 m of the true position (samples 102..108 of 126)
+    #[kani::proof]
+    #[kani::unwind(60)]
+    fn c08_cpr_location_samples_17() {
+        chk(45685, 68085, 73323, 35135, 0, 1, -75.9087032, 90.5000000, 1.200e-04, 4.929e-04);
+        chk(45685, 68085, 73323, 35135, 1, 1, -75.9087032, 90.5000000, 1.200e-04, 4.929e-04);
+        chk(106657, 71020, 78665, 115969, 1, 1, 76.8823693, -123.4567000, 1.200e-04, 5.287e-04);
+        chk(96687, 81920, 68861, 65536, 0, 1, 76.4259754, 45.0001000, 1.200e-04, 5.113e-04);
+        chk(34385, 49152, 62211, 65536, 0, 1, -76.4259754, -44.9999000, 1.200e-04, 5.113e-04);
+        chk(34385, 49152, 62211, 65536, 1, 1, -76.4259754, -44.9999000, 1.200e-04, 5.113e-04);
+        kani::cover!(true, "reach_end");
+    }
+    //@ob id=C08.cpr_location.samples.18 props=C08 tier=quick kind=harness fns=adsb/position.rs:cpr_location bounded=6-concrete-pairs
+    //@region BOUNDED stand-in for the decode arithmetic (the all-input equivalence obligations C08.cpr_location.latitude/.longitude did not finish in 200 min): the real cpr_location on CPR pairs produced by an independent encoder for true positions in every NL zone, both hemispheres, both anchor parities, longitudes incl. the antimeridian and Greenwich: result within ~13 m of the true position (samples 108..114 of 126)
+    #[kani::proof]
+    #[kani::unwind(60)]
+    fn c08_cpr_location_samples_18() {
+        chk(14445, 1, 42603, 1, 0, 1, -77.3387631, 0.0001300, 1.200e-04, 5.475e-04);
+        chk(127813, 17124, 99468, 15697, 1, 1, 77.8508177, 3.9193700, 1.200e-04, 5.702e-04);
+        chk(17782, 131071, 120159, 131071, 0, 1, 78.8140115, -0.0002100, 1.200e-04, 6.186e-04);
+        chk(17782, 131071, 120159, 131071, 1, 1, 78.8140115, -0.0002100, 1.200e-04, 6.186e-04);
+        chk(113290, 65532, 10913, 131069, 1, 1, -78.8140115, 179.9991000, 1.200e-04, 6.186e-04);
+        chk(92367, 3, 121411, 65539, 0, 1, -79.7717572, -179.9992000, 1.200e-04, 6.758e-04);
+        kani::cover!(true, "reach_end");
+    }
+    //@ob id=C08.cpr_location.samples.19 props=C08 tier=quick kind=harness fns=adsb/position.rs:cpr_location bounded=6-concrete-pairs
+    //@region BOUNDED stand-in for the decode arithmetic (the all-input equivalence obligations C08.cpr_location.latitude/.longitude did not finish in 200 min): the real cpr_location on CPR pairs produced by an independent encoder for true positions in every NL zone, both hemispheres, both anchor parities, longitudes incl. the antimeridian and Greenwich: result within ~13 m of the true position (samples 114..120 of 126)
+    #[kani::proof]
+    #[kani::unwind(60)]
+    fn c08_cpr_location_samples_19() {
+        chk(59498, 34406, 30108, 1456, 0, 1, 80.7236228, 90.5000000, 1.200e-04, 7.444e-04);
+        chk(59498, 34406, 30108, 1456, 1, 1, 80.7236228, 90.5000000, 1.200e-04, 7.444e-04);
+        chk(50926, 33622, 80661, 78572, 0, 1, -81.6687916, -123.4567000, 1.200e-04, 8.282e-04);
+        chk(10227, 8562, 40640, 7135, 0, 1, -83.5318650, 3.9193700, 1.200e-04, 1.065e-03);
+        chk(102159, 131071, 2152, 65535, 0, 1, -85.3235391, 179.9991000, 1.200e-04, 1.472e-03);
+        chk(46867, 65537, 15502, 1, 1, 1, 86.1453931, -179.9992000, 1.200e-04, 1.785e-03);
+        kani::cover!(true, "reach_end");
+    }
+    //@ob id=C08.cpr_location.samples.20 props=C08 tier=quick kind=harness fns=adsb/position.rs:cpr_location bounded=6-concrete-pairs
+    //@region BOUNDED stand-in for the decode arithmetic (the all-input equivalence obligations C08.cpr_location.latitude/.longitude did not finish in 200 min): the real cpr_location on CPR pairs produced by an independent encoder for true positions in every NL zone, both hemispheres, both anchor parities, longitudes incl. the antimeridian and Greenwich: result within ~13 m of the true position (samples 120..126 of 126)
+    #[kani::proof]
+    #[kani::unwind(60)]
+    fn c08_cpr_location_samples_20() {
+        chk(38859, 98850, 7628, 65900, 0, 1, 85.7788148, 90.5000000, 1.200e-04, 1.630e-03);
+        chk(38859, 98850, 7628, 65900, 1, 1, 85.7788148, 90.5000000, 1.200e-04, 1.630e-03);
+        chk(92213, 127296, 123444, 41174, 1, 1, -85.7788148, -123.4567000, 1.200e-04, 1.630e-03);
+        chk(76197, 49152, 107695, 32768, 0, 1, -86.5119714, 45.0001000, 1.200e-04, 1.972e-03);
+        chk(60461, 98304, 28870, 114688, 0, 1, 86.7676850, -44.9999000, 1.200e-04, 2.128e-03);
+        chk(60461, 98304, 28870, 114688, 1, 1, 86.7676850, -44.9999000, 1.200e-04, 2.128e-03);
+        kani::cover!(true, "reach_end");
+    }
 }
